@@ -389,32 +389,48 @@ def join_plain(sep, parts):
 
 
 def sstr_to_int(x, *a):
-    """int(str): decimal digits only (any Unicode Nd digit); everything else -> ValueError.
-    (CPython also accepts surrounding whitespace, a sign and '_' separators: those are handled for
-    concrete characters by falling back to the builtin; symbolic characters outside Nd raise.)"""
+    """int(str) as CPython does it for base 10: optional surrounding whitespace, an optional sign, then
+    one or more decimal digits (any Unicode Nd digit); everything else -> ValueError.  Underscore
+    separators next to symbolic characters are not modelled (Unsupported)."""
     if a:
         raise Unsupported("int(str, base)")
-    if not x.chars:
-        raise ValueError("invalid literal for int() with base 10: ''")
+    s = x.strip()
+    chars = list(s.chars) if isinstance(s, SStr) else list(s)
+    sign = 1
+    if chars:
+        c0 = chars[0]
+        if isinstance(c0, str):
+            if c0 in "+-":
+                sign = -1 if c0 == "-" else 1
+                chars = chars[1:]
+        elif truth(c0 == ord("-")):
+            sign = -1
+            chars = chars[1:]
+        elif truth(c0 == ord("+")):
+            chars = chars[1:]
+    if not chars:
+        raise ValueError("invalid literal for int() with base 10")
+    if len(chars) > 4300:
+        raise ValueError("Exceeds the limit (4300 digits) for integer string conversion")
     rs = ranges("isdecimal")
     val = 0
-    for c in x.chars:
+    for c in chars:
         if isinstance(c, str):
+            if c == "_":
+                raise Unsupported("int() with underscore separators")
             if not c.isdecimal():
-                # sign / whitespace / underscore next to symbolic characters: not modelled
-                if c in "+-_" or c.isspace():
-                    raise Unsupported("int() of symbolic string with sign/space/underscore")
                 raise ValueError("invalid literal for int() with base 10")
             d = unicodedata.decimal(c)
         else:
-            if truth(z3.Or(c == ord("+"), c == ord("-"), c == ord("_"), char_in_class(c, "isspace"))):
-                raise Unsupported("int() of symbolic string with sign/space/underscore")
+            if truth(c == ord("_")):
+                raise Unsupported("int() with underscore separators")
             if not truth(char_in_class(c, "isdecimal")):
                 raise ValueError("invalid literal for int() with base 10 (symbolic)")
             d = 0
             for lo, hi in rs:
                 d = z3.If(z3.And(c >= lo, c <= hi), c - lo, d)
         val = val * 10 + d
+    val = val * sign
     return mkint(val) if is_z3(val) else val
 
 
